@@ -96,7 +96,10 @@ Definition mon6_step (cfg : gw_cfg) (s : gw_state) (ev : gw_event) (os : list ob
                else csub1 in
   (* first transmissions written at once (not from the sleep buffer) in the step that handles the
      broker's PUBLISH or the client's REGACK *)
-  let direct := match ev with
+  (* ... of a connected session: a broker that publishes before its CONNACK (MQTT-3.2.0-1 forbids it) starts
+     no exchange the property speaks about - the client's acknowledgement is an illegal packet then *)
+  let direct := connected s &&
+                match ev with
                 | EvMq (MqPublish _ _ _ _ _ _) => true
                 | EvSn _ => match ev_packet ev with Some (Regack _ _ _) => true | _ => false end
                 | _ => false end in
